@@ -304,13 +304,13 @@ int SimulateMips::execute_mips_r(uint32_t opcode)
   switch (opcode)
   {
     case 0x04: // sllv
-      reg[rd] = reg[rs] << reg[rt];
+      reg[rd] = reg[rs] << (reg[rt] & 0x1f);
       break;
     case 0x06: // srlv
-      reg[rd] = (uint32_t)reg[rs] >> reg[rt];
+      reg[rd] = (uint32_t)reg[rs] >> (reg[rt] & 0x1f);
       break;
     case 0x07: // srav
-      reg[rd] = reg[rs] >> reg[rt];
+      reg[rd] = reg[rs] >> (reg[rt] & 0x1f);
       break;
     case 0x20: // add
       // FIXME - need to trap on overflow
